@@ -8,6 +8,8 @@
 // verif:encode strings
 // verif:encode k8s.io/api/authorization/v1
 // verif:encode k8s.io/apimachinery/pkg/apis/meta/v1
+// verif:encode golang.org/x/sync/singleflight
+// verif:init golang.org/x/sync/singleflight
 // verif:init github.com/kubewharf/kubegateway/pkg/gateway/authorization/webhook
 // verif:replace k8s.io/apimachinery/pkg/util/cache.NewLRUExpireCache => verifC12NewLRU
 // verif:replace (*k8s.io/apimachinery/pkg/util/cache.LRUExpireCache).Get => verifC12LRUGet
